@@ -48,35 +48,41 @@ func (r *Rng) Pick(xs ...int) int { return xs[r.Intn(len(xs))] }
 func (r *Rng) Fork() *Rng        { return NewRng(r.U64()) }
 
 // ---------- token streams ----------
-type Toks struct{ parts []string }
+// A Toks value carries two projections of the implementation's observable:
+// the full one (compared with the source-tied model, "m.") and the one the
+// property itself constrains (compared with the spec oracle, "s."): the latter
+// has no error classes.
+type Toks struct{ parts, spec []string }
 
+func (t *Toks) add(s string) *Toks {
+	t.parts = append(t.parts, s)
+	t.spec = append(t.spec, s)
+	return t
+}
 func (t *Toks) I(v int64) *Toks {
 	if v < 0 {
-		t.parts = append(t.parts, "i-"+strconv.FormatUint(uint64(-v), 16))
-	} else {
-		t.parts = append(t.parts, "i"+strconv.FormatInt(v, 16))
+		return t.add("i-" + strconv.FormatUint(uint64(-v), 16))
 	}
-	return t
+	return t.add("i" + strconv.FormatInt(v, 16))
 }
-func (t *Toks) U(v uint64) *Toks {
-	t.parts = append(t.parts, "i"+strconv.FormatUint(v, 16))
-	return t
-}
-func (t *Toks) Big(v *big.Int) *Toks {
-	t.parts = append(t.parts, "i"+v.Text(16))
-	return t
-}
-func (t *Toks) B(b []byte) *Toks {
-	t.parts = append(t.parts, "b"+hex.EncodeToString(b))
-	return t
-}
+func (t *Toks) U(v uint64) *Toks     { return t.add("i" + strconv.FormatUint(v, 16)) }
+func (t *Toks) Big(v *big.Int) *Toks { return t.add("i" + v.Text(16)) }
+func (t *Toks) B(b []byte) *Toks     { return t.add("b" + hex.EncodeToString(b)) }
 func (t *Toks) Bool(b bool) *Toks {
 	if b {
 		return t.I(1)
 	}
 	return t.I(0)
 }
+
+// E records a refusal; the class is only part of the model comparison.
+func (t *Toks) E(class int64) *Toks {
+	t.parts = append(t.parts, "i1", "i"+strconv.FormatInt(class, 16))
+	t.spec = append(t.spec, "i1")
+	return t
+}
 func (t *Toks) String() string { return strings.Join(t.parts, " ") }
+func (t *Toks) Spec() string   { return strings.Join(t.spec, " ") }
 
 // ---------- driver requests ----------
 type Req struct {
@@ -172,10 +178,16 @@ func (d *Driver) Close() {
 	d.cmd.Wait()
 }
 
+// T makes a case from a token stream.
+func T(req Req, t *Toks, tag string) Case {
+	return Case{Req: req, Impl: t.String(), ImplSpec: t.Spec(), Tag: tag}
+}
+
 // ---------- a differential case ----------
 type Case struct {
 	Req  Req    // request without the m./s. prefix
-	Impl string // token stream observed on the implementation
+	Impl string // token stream observed on the implementation (full projection)
+	ImplSpec string // property-level projection; empty = same as Impl
 	Tag  string // coverage tag (which branch / kind of case)
 	// PropOnly: tokens of Impl the property itself constrains are compared with
 	// the spec oracle ("s."), the full stream with the model ("m.").
@@ -335,8 +347,12 @@ func (c *Ctx) record(cs Case, m, s string) {
 	if len(c.Res.Samples) < 6 && c.Res.Evaluations%97 == 1 {
 		c.Res.Samples = append(c.Res.Samples, map[string]string{"request": trunc(key, 400), "impl": trunc(cs.Impl, 400), "tag": cs.Tag})
 	}
-	if !cs.NoSpec && s != cs.Impl {
-		c.mismatch(Mismatch{Kind: "spec", Op: cs.Req.Name, Tag: cs.Tag, Req: key, Impl: cs.Impl, Other: s, Desc: cs.Desc})
+	is := cs.ImplSpec
+	if is == "" {
+		is = cs.Impl
+	}
+	if !cs.NoSpec && s != is {
+		c.mismatch(Mismatch{Kind: "spec", Op: cs.Req.Name, Tag: cs.Tag, Req: key, Impl: is, Other: s, Desc: cs.Desc})
 	} else if m != cs.Impl {
 		c.mismatch(Mismatch{Kind: "model", Op: cs.Req.Name, Tag: cs.Tag, Req: key, Impl: cs.Impl, Other: m, Desc: cs.Desc})
 	}
@@ -344,7 +360,13 @@ func (c *Ctx) record(cs Case, m, s string) {
 
 func (c *Ctx) mismatch(m Mismatch) {
 	c.Res.NMismatch++
-	if len(c.Res.Mismatches) < 20 {
+	n := 0
+	for _, x := range c.Res.Mismatches {
+		if x.Kind == m.Kind {
+			n++
+		}
+	}
+	if n < 10 {
 		c.Res.Mismatches = append(c.Res.Mismatches, m)
 	}
 }
